@@ -88,6 +88,14 @@ def pNode : P (Node Nat) := do
     let ar ← pList (pList pNat)
     pure (.struct { fn := mix salt, scalars := sc, arrays := ar, cache := 0, version := 0,
                     remembered := none, flag := false })
+  else if t == "B" then
+    -- the repo's binary producer `basics.BinaryNode` over a `parameter.File`: the artifact IS the
+    -- file content (identity on the single input)
+    let _salt ← pNat
+    let sc ← pList pOptNat
+    let ar ← pList (pList pNat)
+    pure (.struct { fn := fun _ _ vs => vs.headD 0, scalars := sc, arrays := ar, cache := 0, version := 0,
+                    remembered := none, flag := false })
   else failure
 
 def pCall : P (Call Nat) := do
@@ -432,9 +440,21 @@ def handleLin (stats : Bool) : P String := do
   if !wfNodes ns then failure
   pure (if stats then searchStats ns evs else Driver.boolStr (linearizable ns evs))
 
+/-- `c13.holds.results_immutable K (dRet dLater)*K`: every result a client received (artifact bytes,
+    ParameterData bytes) still has, whenever it was looked at again later — after later completed
+    updates, and after the history ended — the digest it had when the call returned: results are
+    VALUES, a later update must not change them in place (C13: "every artifact reflects one
+    consistent snapshot"; anchors: "artifacts returned are values usable after unlock") -/
+def handleImmutable : P String := do
+  let k ← pNat
+  let ps ← rep (do let a ← tok; let b ← tok; pure (a, b)) k
+  pEnd
+  pure (Driver.boolStr (ps.all fun (a, b) => a == b))
+
 /-- one request -> one answer line; `none` = unknown op / malformed -/
 def handle (op : String) (args : List String) : Option String :=
   match op with
+  | "c13.holds.results_immutable" => (handleImmutable.run args).map (·.1)
   | "c13.seq" => (handleSeq.run args).map (·.1)
   | "c13.holds.linearizable" => ((handleLin false).run args).map (·.1)
   | "c13.debug.search" => ((handleLin true).run args).map (·.1)
